@@ -25,7 +25,7 @@ enum Entry {
 static SPAWN_LOCK: std::sync::Mutex<()> = std::sync::Mutex::new(());
 
 pub fn run(ctx: &Ctx) {
-    let n = if ctx.quick() { 200 } else { 3000 };
+    let n = if ctx.quick() { 400 } else { 4000 };
     let seed = ctx.seed;
     let base = std::fs::canonicalize(std::env::temp_dir()).unwrap_or_else(|_| "/tmp".into());
     let pid = std::process::id();
@@ -50,6 +50,20 @@ pub fn run(ctx: &Ctx) {
                 entries[2] = Entry::Script(33);
             }
             let name = *rng.pick(&["cmdx", "my-tool", "x.y"]);
+            // XBD 8.3: a zero-length PATH component (leading colon, two adjacent colons, trailing colon)
+            // names the current working directory; 0 = no such component
+            let empty_at = if rng.chance(50) { rng.range(1, 4) } else { 0 };
+            let cwd_entry = if empty_at == 0 {
+                Entry::Nothing
+            } else {
+                match rng.below(4) {
+                    0 => Entry::Nothing,
+                    1 => Entry::NotExecutable,
+                    _ => Entry::Script(70 + rng.below(5) as u8),
+                }
+            };
+            // other spellings of a component: relative to the working directory, with a trailing slash
+            let relative = rng.chance(30);
             let setup = || -> std::io::Result<()> {
                 for (k, e) in entries.iter().enumerate() {
                     let p = dir.join(format!("p{}", k + 1));
@@ -71,6 +85,17 @@ pub fn run(ctx: &Ctx) {
                         }
                     }
                 }
+                match cwd_entry {
+                    Entry::NotExecutable => {
+                        std::fs::write(dir.join(name), "#!/bin/sh\necho not-executable\nexit 99\n")?;
+                        std::fs::set_permissions(dir.join(name), std::fs::Permissions::from_mode(0o644))?;
+                    }
+                    Entry::Script(st) => {
+                        std::fs::write(dir.join(name), format!("#!/bin/sh\necho ran-p0 \"$@\"\nexit {st}\n"))?;
+                        std::fs::set_permissions(dir.join(name), std::fs::Permissions::from_mode(0o755))?;
+                    }
+                    _ => {}
+                }
                 Ok(())
             };
             let guard = SPAWN_LOCK.lock().unwrap();
@@ -81,7 +106,18 @@ pub fn run(ctx: &Ctx) {
                 let _ = std::fs::remove_dir_all(&dir);
                 return;
             }
-            let winner = entries.iter().enumerate().find_map(|(k, e)| if let Entry::Script(st) = e { Some((k + 1, *st)) } else { None });
+            // search order: p1 p2 p3 (then /bin:/usr/bin, which do not have the name), with the working
+            // directory (reported as p0) where the empty component stands: 1 = first, 2 = between p1 and
+            // p2, 3 = last of all
+            let mut order: Vec<(usize, Entry)> = entries.iter().enumerate().map(|(k, e)| (k + 1, *e)).collect();
+            match empty_at {
+                1 => order.insert(0, (0, cwd_entry)),
+                2 => order.insert(1, (0, cwd_entry)),
+                3 => order.push((0, cwd_entry)),
+                _ => {}
+            }
+            let winner = order.iter().find_map(|(k, e)| if let Entry::Script(st) = e { Some((*k, *st)) } else { None });
+            let entries_all: Vec<Entry> = order.iter().map(|x| x.1).collect();
             let with_function = rng.chance(25);
             let mut script = String::new();
             let mut expect = String::new();
@@ -90,12 +126,15 @@ pub fn run(ctx: &Ctx) {
                 Some((k, st)) => expect.push_str(&format!("ran-p{k} a b\nst={st}\n")),
                 None => {
                     // not found (127); a file that exists but cannot be executed may give 126
-                    expect.push_str(if entries.contains(&Entry::NotExecutable) { "st=126|127\n" } else { "st=127\n" });
+                    expect.push_str(if entries_all.contains(&Entry::NotExecutable) { "st=126|127\n" } else { "st=127\n" });
                 }
             }
             // command -v prints the path that would be used
             script.push_str(&format!("command -v {name}; echo \"st=$?\"\n"));
             match winner {
+                // (how a path found through an empty or relative component is spelled is not prescribed)
+                Some((0, _)) => expect.push_str("<any line>\nst=0\n"),
+                Some((_, _)) if relative => expect.push_str("<any line>\nst=0\n"),
                 Some((k, _)) => expect.push_str(&format!("{}/p{k}/{name}\nst=0\n", dir.display())),
                 None => expect.push_str("st=1\n"),
             }
@@ -106,7 +145,7 @@ pub fn run(ctx: &Ctx) {
                 script.push_str(&format!("command {name} d; echo \"st=$?\"\n"));
                 match winner {
                     Some((k, st)) => expect.push_str(&format!("ran-p{k} d\nst={st}\n")),
-                    None => expect.push_str(if entries.contains(&Entry::NotExecutable) { "st=126|127\n" } else { "st=127\n" }),
+                    None => expect.push_str(if entries_all.contains(&Entry::NotExecutable) { "st=126|127\n" } else { "st=127\n" }),
                 }
             }
             // a name with a slash is used as is
@@ -124,7 +163,24 @@ pub fn run(ctx: &Ctx) {
             script.push_str("./p1/missing/sub; echo \"st=$?\"\n");
             expect.push_str("st=127\n");
             let exe = std::env::current_exe().unwrap();
-            let path = format!("{0}/p1:{0}/p2:{0}/p3:/bin:/usr/bin", dir.display());
+            let comp = |k: usize| -> String {
+                if relative {
+                    match k {
+                        1 => "p1".to_string(),
+                        2 => "./p2/".to_string(),
+                        _ => format!("{}/p2/../p3/", dir.display()),
+                    }
+                } else {
+                    format!("{}/p{k}", dir.display())
+                }
+            };
+            let path = match empty_at {
+                1 => format!(":{}:{}:{}:/bin:/usr/bin", comp(1), comp(2), comp(3)),
+                2 => format!("{}::{}:{}:/bin:/usr/bin", comp(1), comp(2), comp(3)),
+                3 => format!("{}:{}:{}:/bin:/usr/bin:", comp(1), comp(2), comp(3)),
+                _ => format!("{}:{}:{}:/bin:/usr/bin", comp(1), comp(2), comp(3)),
+            };
+            ctx.count(&format!("real_searches_with_empty_component_at_{empty_at}"), 1);
             let guard = SPAWN_LOCK.lock().unwrap();
             let child = std::process::Command::new(exe)
                 .args(["real-shell", "-c", &script])
@@ -149,10 +205,12 @@ pub fn run(ctx: &Ctx) {
             let ok = {
                 let g: Vec<&str> = got.lines().collect();
                 let e: Vec<&str> = expect.lines().collect();
-                g.len() == e.len() && g.iter().zip(e.iter()).all(|(a, b)| a == b || (*b == "st=126|127" && (*a == "st=126" || *a == "st=127")))
+                g.len() == e.len() && g.iter().zip(e.iter()).all(|(a, b)| a == b || (*b == "<any line>" && a.ends_with(name)) || (*b == "st=126|127" && (*a == "st=126" || *a == "st=127")))
             };
             if !ok {
-                let class = if winner.is_some() && entries.iter().take_while(|e| !matches!(e, Entry::Script(_))).any(|e| *e == Entry::Directory) {
+                let class = if empty_at != 0 {
+                    "empty-component"
+                } else if winner.is_some() && entries.iter().take_while(|e| !matches!(e, Entry::Script(_))).any(|e| *e == Entry::Directory) {
                     "directory-before-executable"
                 } else if winner.is_some() {
                     "search-order"
@@ -162,12 +220,12 @@ pub fn run(ctx: &Ctx) {
                 ctx.violation(
                     format!("real:path-search:{class}"),
                     format!(
-                        "real system, PATH entries p1..p3 hold {entries:?} for `{name}`\nscript:\n{script}expected stdout:\n{expect}actual stdout:\n{got}stderr:\n{}",
+                        "real system, PATH={path}, entries p1..p3 hold {entries:?} for `{name}`, the working directory holds {cwd_entry:?}\nscript:\n{script}expected stdout:\n{expect}actual stdout:\n{got}stderr:\n{}",
                         String::from_utf8_lossy(&out.stderr)
                     ),
                 );
             } else {
-                ctx.nontrivial(crate::util::fnv_str(&format!("{entries:?}{with_function}")));
+                ctx.nontrivial(crate::util::fnv_str(&format!("{entries:?}{with_function}{empty_at}{cwd_entry:?}{relative}")));
             }
             if i % (n / 3).max(1) == 0 {
                 ctx.sample(J::obj(vec![("part", J::s("real-system PATH search")), ("entries", J::s(format!("{entries:?}"))), ("script", J::s(script.clone()))]));
